@@ -104,8 +104,8 @@ Variable shuffle : nat -> list entry -> list entry.
 Hypothesis shuffle_In : forall c l e, In e (shuffle c l) <-> In e l.
 
 Notation idx_steps := (index_steps shuffle false).
-Notation steps := (op_steps H shuffle false false).
-Notation runop := (run_op H shuffle false false).
+Notation steps := (op_steps H shuffle false false true).
+Notation runop := (run_op H shuffle false false true).
 
 (* ---------- Recoverable only looks at oci-layout, index.json and blobs/ ---------- *)
 Definition nt_eq (a c : FS) : Prop := forall p, is_temp p = false -> files a p = files c p.
@@ -728,7 +728,7 @@ Lemma op_safe s o :
   (Agree s -> Agree (runop s o)) /\
   (forall d', exists_file (sfs (runop s o)) (FBlob d')
               = spec_blobs_step H (fun x => exists_file (sfs s) (FBlob x)) o d') /\
-  forall k, Recoverable H (sfs s) (crash_fs H shuffle false false s o k) (sfs (runop s o)).
+  forall k, Recoverable H (sfs s) (crash_fs H shuffle false false true s o k) (sfs (runop s o)).
 Proof.
   intro I. unfold run_op, crash_fs, op_steps. destruct o as [d cont man|d r|r|d| |live].
   - (* Push *)
@@ -808,21 +808,21 @@ Qed.
 Lemma agree_init : Agree init.
 Proof. exists []. split; [reflexivity|]. intro e. cbn. tauto. Qed.
 
-Lemma inv_run h : forall s, Inv s -> Inv (run H shuffle false false h s).
+Lemma inv_run h : forall s, Inv s -> Inv (run H shuffle false false true h s).
 Proof.
   induction h as [|o h IH]; intros s I; [exact I|].
   cbn [run fold_left]. apply IH. now apply op_safe.
 Qed.
 
-Lemma agree_run h : forall s, Inv s -> Agree s -> Agree (run H shuffle false false h s).
+Lemma agree_run h : forall s, Inv s -> Agree s -> Agree (run H shuffle false false true h s).
 Proof.
   induction h as [|o h IH]; intros s I A; [exact A|].
   cbn [run fold_left]. destruct (op_safe s o I) as (I1 & A1 & _). apply IH; [exact I1|now apply A1].
 Qed.
 
 Theorem crash_safe h o k :
-  let s := run H shuffle false false h init in
-  Recoverable H (sfs s) (crash_fs H shuffle false false s o k) (sfs (run_op H shuffle false false s o)).
+  let s := run H shuffle false false true h init in
+  Recoverable H (sfs s) (crash_fs H shuffle false false true s o k) (sfs (run_op H shuffle false false true s o)).
 Proof. intro s. apply op_safe. apply inv_run. apply inv_init. Qed.
 
 (* what the statement says in words, as corollaries *)
@@ -834,9 +834,9 @@ Proof.
 Qed.
 
 Corollary crash_tags_before_or_after h o k :
-  let s := run H shuffle false false h init in
-  let fsk := crash_fs H shuffle false false s o k in
-  same_tags fsk (sfs s) \/ same_tags fsk (sfs (run_op H shuffle false false s o)).
+  let s := run H shuffle false false true h init in
+  let fsk := crash_fs H shuffle false false true s o k in
+  same_tags fsk (sfs s) \/ same_tags fsk (sfs (run_op H shuffle false false true s o)).
 Proof. intros s fsk. apply rec_same_tags. apply crash_safe. Qed.
 
 (* ---------- completed operations: the directory refines the sequential specification ---------- *)
@@ -902,14 +902,14 @@ Qed.
 
 Lemma rel_run h : forall s bs tg,
   Inv s -> Rel s bs tg ->
-  Rel (run H shuffle false false h s) (fst (spec_run H h bs tg)) (snd (spec_run H h bs tg)).
+  Rel (run H shuffle false false true h s) (fst (spec_run H h bs tg)) (snd (spec_run H h bs tg)).
 Proof.
   induction h as [|o h IH]; intros s bs tg I R; [exact R|].
   cbn [run fold_left spec_run]. apply IH; [now apply op_safe|now apply rel_step].
 Qed.
 
 Theorem completed_effects h :
-  let s := run H shuffle false false h init in
+  let s := run H shuffle false false true h init in
   let bs := fst (spec_run H h (fun _ => false) (fun _ => None)) in
   let tg := snd (spec_run H h (fun _ => false) (fun _ => None)) in
   (forall d, exists_file (sfs s) (FBlob d) = bs d) /\
@@ -973,7 +973,7 @@ Ltac tc_solve :=
 
 Lemma op_steps_tc s o : all_tc (sctr s) (steps s o).
 Proof.
-  unfold op_steps. destruct o as [d cont man|d r|r|d| |live]; cbn [op_mem].
+  unfold op_steps. cbv beta iota delta [auto_idx]. destruct o as [d cont man|d r|r|d| |live]; cbn [op_mem].
   - destruct (exists_file (sfs s) (FBlob d)); [apply all_tc_nil|].
     destruct (H cont =? d); cbn [negb]; destruct man; tc_solve.
   - destruct (exists_file (sfs s) (FBlob d)); tc_solve.
@@ -1083,7 +1083,7 @@ Proof.
 Qed.
 
 Lemma reopen_inv s o k :
-  Inv s -> Inv (reopen (crash_fs H shuffle false false s o k) (S (sctr s))).
+  Inv s -> Inv (reopen (crash_fs H shuffle false false true s o k) (S (sctr s))).
 Proof.
   intro I. destruct (op_safe s o I) as (I1 & _ & _ & R).
   destruct (R k) as (L & B & (l & Hl & He) & RI & _).
@@ -1093,7 +1093,7 @@ Proof.
       intros r n n' H1 H2. apply Hn0 in H1, H2. exact (inv_fun s I r n n' H1 H2).
     - destruct (inv_named _ I1) as (l1 & Hl1 & Hn1). rewrite Hl1 in RI. injection RI as <-.
       intros r n n' H1 H2. apply Hn1 in H1, H2. exact (inv_fun _ I1 r n n' H1 H2). }
-  set (fsk := crash_fs H shuffle false false s o k) in *.
+  set (fsk := crash_fs H shuffle false false true s o k) in *.
   unfold reopen. rewrite Hl.
   destruct (load_spec l [] []) as (A1 & A2 & _ & A4); [intros r n []|].
   constructor; cbn [sfs stags sdigs sctr].
@@ -1111,10 +1111,10 @@ Proof.
     split; [intro Hin; now left|intros [Hin|[[] _]]; exact Hin].
 Qed.
 
-Lemma inv_run_hop s x : Inv s -> Inv (run_hop H shuffle false false s x).
+Lemma inv_run_hop s x : Inv s -> Inv (run_hop H shuffle false false true s x).
 Proof. intro I. destruct x as [o|o k]; cbn [run_hop]; [now apply op_safe|now apply reopen_inv]. Qed.
 
-Lemma inv_runc h : forall s, Inv s -> Inv (runc H shuffle false false h s).
+Lemma inv_runc h : forall s, Inv s -> Inv (runc H shuffle false false true h s).
 Proof.
   induction h as [|x h IH]; intros s I; [exact I|].
   cbn [runc fold_left]. apply IH. now apply inv_run_hop.
@@ -1123,8 +1123,8 @@ Qed.
 (* after any history in which operations completed or were interrupted at any cut (the
    store being reopened after each crash), the next operation is crash-safe again *)
 Theorem crash_safe_recovered (h : list hop) o k :
-  let s := runc H shuffle false false h init in
-  Recoverable H (sfs s) (crash_fs H shuffle false false s o k) (sfs (run_op H shuffle false false s o)).
+  let s := runc H shuffle false false true h init in
+  Recoverable H (sfs s) (crash_fs H shuffle false false true s o k) (sfs (run_op H shuffle false false true s o)).
 Proof. intro s. apply op_safe. apply inv_runc. apply inv_init. Qed.
 
 (* ---------- nothing that stays is ever written in place ---------- *)
@@ -1171,7 +1171,7 @@ Ltac ipf_solve :=
 
 Theorem no_in_place_write s o : all_ipf (steps s o).
 Proof.
-  unfold op_steps. destruct o as [d cont man|d r|r|d| |live]; cbn [op_mem].
+  unfold op_steps. cbv beta iota delta [auto_idx]. destruct o as [d cont man|d r|r|d| |live]; cbn [op_mem].
   - destruct (exists_file (sfs s) (FBlob d)); [apply all_ipf_nil|].
     destruct (H cont =? d); cbn [negb]; destruct man; ipf_solve.
   - destruct (exists_file (sfs s) (FBlob d)); ipf_solve.
@@ -1191,14 +1191,14 @@ Proof. unfold run_op. destruct (op_mem H s o). reflexivity. Qed.
 Lemma seq_cut os : forall s k,
   (exists pre o post k',
      os = pre ++ o :: post /\
-     crash_seq H shuffle false false s os k
-       = crash_fs H shuffle false false (run H shuffle false false pre s) o k') \/
-  crash_seq H shuffle false false s os k = sfs (run H shuffle false false os s).
+     crash_seq H shuffle false false true s os k
+       = crash_fs H shuffle false false true (run H shuffle false false true pre s) o k') \/
+  crash_seq H shuffle false false true s os k = sfs (run H shuffle false false true os s).
 Proof.
   induction os as [|o os IH]; intros s k.
   - right. unfold crash_seq. cbn. now rewrite firstn_nil.
   - unfold crash_seq. cbn [steps_seq].
-    destruct (firstn_app_cases k (steps s o) (steps_seq H shuffle false false (runop s o) os)) as [[E _]|(k' & E)].
+    destruct (firstn_app_cases k (steps s o) (steps_seq H shuffle false false true (runop s o) os)) as [[E _]|(k' & E)].
     + left. exists [], o, os, k. split; [reflexivity|]. rewrite E. reflexivity.
     + rewrite E, apply_app.
       rewrite <- sfs_run_op.
@@ -1209,20 +1209,20 @@ Proof.
 Qed.
 
 Lemma inv_runc_app (h : list hop) pre :
-  Inv (run H shuffle false false pre (runc H shuffle false false h init)).
+  Inv (run H shuffle false false true pre (runc H shuffle false false true h init)).
 Proof. apply inv_run. apply inv_runc. apply inv_init. Qed.
 
 (* every cut of a composite call, after any history with earlier crashes: the directory is
    a crash state of one primitive [o] of the call, between the quiescent states before and
    after [o]; both are reached by completed primitives only *)
 Theorem crash_safe_composite (h : list hop) (os : list op) k :
-  let s := runc H shuffle false false h init in
-  let fsk := crash_seq H shuffle false false s os k in
+  let s := runc H shuffle false false true h init in
+  let fsk := crash_seq H shuffle false false true s os k in
   (exists pre o post,
      os = pre ++ o :: post /\
-     let sj := run H shuffle false false pre s in
-     Recoverable H (sfs sj) fsk (sfs (run_op H shuffle false false sj o))) \/
-  (fsk = sfs (run H shuffle false false os s) /\ Good fsk).
+     let sj := run H shuffle false false true pre s in
+     Recoverable H (sfs sj) fsk (sfs (run_op H shuffle false false true sj o))) \/
+  (fsk = sfs (run H shuffle false false true os s) /\ Good fsk).
 Proof.
   intros s fsk. destruct (seq_cut os s k) as [(pre & o & post & k' & Eq & Ec)|Ef].
   - left. exists pre, o, post. split; [exact Eq|]. cbn zeta. unfold fsk. rewrite Ec.
@@ -1233,7 +1233,7 @@ Qed.
 
 (* whatever the cut of a composite call: the static part of the property *)
 Corollary crash_composite_good (h : list hop) (os : list op) k :
-  Good (crash_seq H shuffle false false (runc H shuffle false false h init) os k).
+  Good (crash_seq H shuffle false false true (runc H shuffle false false true h init) os k).
 Proof.
   destruct (crash_safe_composite h os k) as [(pre & o & post & _ & (L & B & Ix & _))|[_ G]].
   - exact (conj L (conj B Ix)).
@@ -1286,7 +1286,7 @@ Qed.
 
 Lemma shrinking_run os : forall s d,
   Inv s -> (forall o, In o os -> shrinking o) ->
-  has (sfs (run H shuffle false false os s)) (FBlob d) -> has (sfs s) (FBlob d).
+  has (sfs (run H shuffle false false true os s)) (FBlob d) -> has (sfs s) (FBlob d).
 Proof.
   induction os as [|o os IH]; intros s d I Hs Hh; [exact Hh|].
   cbn [run fold_left] in Hh.
@@ -1296,27 +1296,27 @@ Qed.
 
 Theorem crash_shrinking_between (h : list hop) (os : list op) k :
   (forall o, In o os -> shrinking o) ->
-  let s := runc H shuffle false false h init in
-  let fsk := crash_seq H shuffle false false s os k in
-  let fs1 := sfs (run H shuffle false false os s) in
+  let s := runc H shuffle false false true h init in
+  let fsk := crash_seq H shuffle false false true s os k in
+  let fs1 := sfs (run H shuffle false false true os s) in
   (forall d, has (sfs s) (FBlob d) -> has fs1 (FBlob d) -> has fsk (FBlob d)) /\
   (forall d, has fsk (FBlob d) -> has (sfs s) (FBlob d)).
 Proof.
   intros Hs s fsk fs1. subst fsk fs1.
   assert (I : Inv s) by (apply inv_runc; apply inv_init).
   pose proof (crash_safe_composite h os k) as C. cbn zeta in C. fold s in C.
-  set (fsk := crash_seq H shuffle false false s os k) in *.
-  set (fs1 := sfs (run H shuffle false false os s)) in *.
+  set (fsk := crash_seq H shuffle false false true s os k) in *.
+  set (fs1 := sfs (run H shuffle false false true os s)) in *.
   destruct C as [(pre & o & post & Eq & R)|[Ef _]].
   - cbn zeta in R.
-    set (sj := run H shuffle false false pre s) in *.
+    set (sj := run H shuffle false false true pre s) in *.
     assert (Ij : Inv sj) by (apply inv_run; exact I).
     assert (Hpre : forall o', In o' pre -> shrinking o').
     { intros o' Hin. apply Hs. rewrite Eq. apply in_or_app. now left. }
     assert (Ho : shrinking o). { apply Hs. rewrite Eq. apply in_or_app. right. now left. }
     assert (Hpost : forall o', In o' post -> shrinking o').
     { intros o' Hin. apply Hs. rewrite Eq. apply in_or_app. right. now right. }
-    assert (E1 : fs1 = sfs (run H shuffle false false post (runop sj o))).
+    assert (E1 : fs1 = sfs (run H shuffle false false true post (runop sj o))).
     { unfold fs1. rewrite Eq. unfold run. rewrite fold_left_app. reflexivity. }
     destruct R as (_ & _ & _ & _ & P1 & P2). split.
     + intros d H0 H1. apply P1.
@@ -1363,20 +1363,20 @@ Qed.
 
 Lemma untagged_deletes_tags os : forall s,
   (forall o, In o os -> untagged_delete (stags s) o) ->
-  stags (run H shuffle false false os s) = stags s.
+  stags (run H shuffle false false true os s) = stags s.
 Proof.
   induction os as [|o os IH]; intros s Ho; [reflexivity|].
-  change (run H shuffle false false (o :: os) s) with (run H shuffle false false os (runop s o)).
+  change (run H shuffle false false true (o :: os) s) with (run H shuffle false false true os (runop s o)).
   assert (E : stags (runop s o) = stags s) by (apply untagged_delete_tags; apply Ho; now left).
   rewrite IH; [exact E|]. intros o' Hin. rewrite E. apply Ho. now right.
 Qed.
 
 Theorem cascade_tags (h : list hop) d xs k :
-  let s := runc H shuffle false false h init in
+  let s := runc H shuffle false false true h init in
   (forall l, read_index (sfs s) = Some l -> forall x r, In x xs -> ~ tag_of l r x) ->
   let os := Delete d :: map Delete xs in
-  let fsk := crash_seq H shuffle false false s os k in
-  same_tags fsk (sfs s) \/ same_tags fsk (sfs (run H shuffle false false os s)).
+  let fsk := crash_seq H shuffle false false true s os k in
+  same_tags fsk (sfs s) \/ same_tags fsk (sfs (run H shuffle false false true os s)).
 Proof.
   intros s Hun os fsk.
   assert (I : Inv s) by (apply inv_runc; apply inv_init).
@@ -1391,9 +1391,9 @@ Proof.
     intros r Ht. unfold s1, run_op in Ht. cbn [op_mem stags] in Ht.
     apply filter_In in Ht as [Ht _]. exact (Hun0 x r Hin Ht). }
   assert (Hsub : forall ps, (forall o, In o ps -> In o (map Delete xs)) ->
-                  stags (run H shuffle false false ps s1) = stags s1).
+                  stags (run H shuffle false false true ps s1) = stags s1).
   { intros ps Hps. apply untagged_deletes_tags. intros o Hin. apply Hun1. now apply Hps. }
-  set (sn := run H shuffle false false os s).
+  set (sn := run H shuffle false false true os s).
   assert (En : stags sn = stags s1).
   { unfold sn, os. cbn [run fold_left]. apply Hsub. auto. }
   assert (In_ : Inv sn) by (unfold sn; apply inv_run; exact I).
@@ -1411,7 +1411,7 @@ Proof.
       assert (Hpre : forall o', In o' pre -> In o' (map Delete xs)).
       { intros o' Hin. rewrite Eq. apply in_or_app. now left. }
       assert (Ho : In o (map Delete xs)) by (rewrite Eq; apply in_or_app; right; now left).
-      set (sj := run H shuffle false false pre s1) in *.
+      set (sj := run H shuffle false false true pre s1) in *.
       assert (Ij : Inv sj) by (apply inv_run; exact I1).
       assert (Ej : stags sj = stags s1) by (apply Hsub; exact Hpre).
       destruct R as [R|R]; apply (same_tags_trans _ _ _ R).
@@ -1424,14 +1424,330 @@ Proof.
     exists l, l. repeat split; auto.
 Qed.
 
+(* ---------- GC: Forget, then bare removals of blob files ---------- *)
+(* Go's sweep is os.Remove, not Store.delete.  Whenever the swept blob is not held by the
+   tag resolver, the model's plain Delete IS that bare removal: no index write, memory
+   unchanged. *)
+Lemma delete_unheld_is_unlink s x :
+  Inv s -> ~ In x (sdigs s) ->
+  steps s (Delete x) = (if exists_file (sfs s) (FBlob x) then [Unlink (FBlob x)] else []) /\
+  stags (runop s (Delete x)) = stags s /\ sdigs (runop s (Delete x)) = sdigs s.
+Proof.
+  intros I Hx.
+  assert (Ht : forall r, ~ In (r, x) (stags s)).
+  { intros r Hin. apply Hx. exact (inv_tagdig s I r x Hin). }
+  assert (E1 : existsb (fun e => snd e =? x) (stags s) = false).
+  { destruct (existsb (fun e => snd e =? x) (stags s)) eqn:E; [|reflexivity].
+    apply existsb_exists in E as ([r n] & Hin & E). cbn in E. apply N.eqb_eq in E. subst n.
+    exfalso. exact (Ht r Hin). }
+  assert (E2 : memN x (sdigs s) = false).
+  { unfold memN. destruct (existsb (N.eqb x) (sdigs s)) eqn:E; [|reflexivity].
+    apply existsb_exists in E as (y & Hin & E). apply N.eqb_eq in E. subst y. contradiction. }
+  split; [|split].
+  - unfold op_steps. cbn [op_mem]. rewrite E1, E2. reflexivity.
+  - unfold run_op. cbn [op_mem stags]. apply filter_all_true. intros [r n] Hin. cbn.
+    apply negb_true_iff, N.eqb_neq. intros ->. exact (Ht r Hin).
+  - unfold run_op. cbn [op_mem sdigs]. apply filter_all_true. intros y Hin.
+    apply negb_true_iff, N.eqb_neq. intros ->. contradiction.
+Qed.
+
+Definition gc_ops (live xs : list N) : list op := Forget live :: map Delete xs.
+
+(* the state after Forget and any number of the sweep's removals: same tags, and no
+   swept blob is held by digest *)
+Lemma gc_prefix_mem s live xs :
+  Inv s ->
+  (forall x, In x xs -> ~ In x live /\ forall r, ~ In (r, x) (stags s)) ->
+  forall pre, (forall o, In o pre -> In o (map Delete xs)) ->
+  let sj := run H shuffle false false true pre (runop s (Forget live)) in
+  Inv sj /\ stags sj = stags s /\ forall x, In x xs -> ~ In x (sdigs sj).
+Proof.
+  intros I Hxs.
+  set (s1 := runop s (Forget live)).
+  assert (I1 : Inv s1) by (now apply op_safe).
+  assert (T1 : stags s1 = stags s) by (unfold s1, run_op; reflexivity).
+  assert (D1 : forall x, In x xs -> ~ In x (sdigs s1)).
+  { intros x Hin Hd. unfold s1, run_op in Hd. cbn [op_mem sdigs] in Hd.
+    apply filter_In in Hd as [_ Hk]. destruct (Hxs x Hin) as [Hl Ht].
+    apply orb_true_iff in Hk as [Hk|Hk].
+    - apply Hl. unfold memN in Hk. apply existsb_exists in Hk as (y & Hy & E).
+      apply N.eqb_eq in E. now subst y.
+    - apply existsb_exists in Hk as ([r n] & Hr & E). cbn in E. apply N.eqb_eq in E. subst n.
+      exact (Ht r Hr). }
+  intro pre. induction pre as [|o pre IH] using rev_ind; intros Hpre.
+  - split; [exact I1|split; [exact T1|exact D1]].
+  - cbn zeta. unfold run. rewrite fold_left_app. cbn [fold_left].
+    fold (run H shuffle false false true pre s1).
+    destruct IH as (Ij & Tj & Dj).
+    { intros o' Hin. apply Hpre. apply in_or_app. now left. }
+    set (sj := run H shuffle false false true pre s1) in *.
+    assert (Ho : In o (map Delete xs)) by (apply Hpre; apply in_or_app; right; now left).
+    apply in_map_iff in Ho as (x & <- & Hx).
+    destruct (delete_unheld_is_unlink sj x Ij (Dj x Hx)) as (_ & Et & Ed).
+    split; [now apply op_safe|]. split; [now rewrite Et|]. intros y Hy. rewrite Ed. now apply Dj.
+Qed.
+
+Theorem gc_crash_safe (h : list hop) live xs k :
+  let s := runc H shuffle false false true h init in
+  (forall l, read_index (sfs s) = Some l ->
+     forall x, In x xs -> ~ In x live /\ forall r, ~ tag_of l r x) ->
+  let os := gc_ops live xs in
+  let fsk := crash_seq H shuffle false false true s os k in
+  (* every removal of the sweep is a bare unlink *)
+  (forall pre x post, map Delete xs = pre ++ Delete x :: post ->
+     let sj := run H shuffle false false true pre (runop s (Forget live)) in
+     steps sj (Delete x) = if exists_file (sfs sj) (FBlob x) then [Unlink (FBlob x)] else []) /\
+  (* the tag mapping never changes *)
+  same_tags fsk (sfs s) /\
+  (* index.json is the one before the call or the one Forget saved *)
+  (read_index fsk = read_index (sfs s) \/ read_index fsk = read_index (sfs (runop s (Forget live)))).
+Proof.
+  intros s Hd os fsk.
+  assert (I : Inv s) by (apply inv_runc; apply inv_init).
+  assert (Hxs : forall x, In x xs -> ~ In x live /\ forall r, ~ In (r, x) (stags s)).
+  { intros x Hin. destruct (inv_named s I) as (l & Hl & Hn). destruct (Hd l Hl x Hin) as [A B].
+    split; [exact A|]. intros r Ht. apply (B r). unfold tag_of. now apply Hn. }
+  pose proof (gc_prefix_mem s live xs I Hxs) as G.
+  set (s1 := runop s (Forget live)) in *.
+  assert (T1 : stags s1 = stags s) by (unfold s1, run_op; reflexivity).
+  split; [|split].
+  - intros pre x post Eq sj.
+    destruct (G pre) as (Ij & _ & Dj).
+    { intros o Hin. rewrite Eq. apply in_or_app. now left. }
+    apply delete_unheld_is_unlink; [exact Ij|]. apply Dj.
+    assert (Hin : In (Delete x) (map Delete xs)) by (rewrite Eq; apply in_or_app; right; now left).
+    apply in_map_iff in Hin as (y & Ey & Hy). injection Ey as ->. exact Hy.
+  - pose proof (crash_safe_composite h os k) as C. cbn zeta in C. fold s in C. fold fsk in C.
+    destruct C as [(pre & o & post & Eq & R)|[Ef Gd]].
+    + cbn zeta in R. apply rec_same_tags in R.
+      destruct pre as [|p0 pre].
+      * cbn [app] in Eq. unfold os, gc_ops in Eq. injection Eq as <- _. cbn [run fold_left] in R. fold s1 in R.
+        destruct R as [R|R]; [exact R|].
+        apply (same_tags_trans _ _ _ R). apply same_tags_of_inv; [now apply op_safe|exact I|].
+        intros r n. now rewrite T1.
+      * cbn [app] in Eq. unfold os, gc_ops in Eq. injection Eq as <- Eq.
+        cbn [run fold_left] in R. fold s1 in R.
+        destruct (G pre) as (Ij & Tj & Dj).
+        { intros o' Hin. rewrite Eq. apply in_or_app. now left. }
+        set (sj := run H shuffle false false true pre s1) in *.
+        assert (Ho : In o (map Delete xs)) by (rewrite Eq; apply in_or_app; right; now left).
+        apply in_map_iff in Ho as (x & <- & Hx).
+        destruct (delete_unheld_is_unlink sj x Ij (Dj x Hx)) as (_ & Et & _).
+        destruct R as [R|R]; apply (same_tags_trans _ _ _ R); apply same_tags_of_inv;
+          try exact I; try exact Ij; try (now apply op_safe); intros r n.
+        -- change (In (r, n) (stags sj) <-> In (r, n) (stags s)). now rewrite Tj.
+        -- change (In (r, n) (stags (runop sj (Delete x))) <-> In (r, n) (stags s)). now rewrite Et, Tj.
+    + rewrite Ef. apply same_tags_of_inv; [apply inv_run; exact I|exact I|].
+      destruct (G (map Delete xs)) as (_ & Tn & _); [auto|].
+      intros r n.
+      change (In (r, n) (stags (run H shuffle false false true (map Delete xs) s1)) <-> In (r, n) (stags s)).
+      now rewrite Tn.
+  - (* index.json changes exactly once, in Forget *)
+    pose proof (crash_safe_composite h os k) as C. cbn zeta in C. fold s in C. fold fsk in C.
+    assert (RI : forall pre, (forall o, In o pre -> In o (map Delete xs)) ->
+                 read_index (sfs (run H shuffle false false true pre s1)) = read_index (sfs s1)).
+    { intro pre. induction pre as [|o pre IH] using rev_ind; intro Hpre; [reflexivity|].
+      unfold run. rewrite fold_left_app. cbn [fold_left]. fold (run H shuffle false false true pre s1).
+      destruct (G pre) as (Ij & _ & Dj); [intros o' Hin; apply Hpre; apply in_or_app; now left|].
+      set (sj := run H shuffle false false true pre s1) in *.
+      assert (Ho : In o (map Delete xs)) by (apply Hpre; apply in_or_app; right; now left).
+      apply in_map_iff in Ho as (x & <- & Hx).
+      destruct (delete_unheld_is_unlink sj x Ij (Dj x Hx)) as (Es & _ & _).
+      rewrite sfs_run_op, Es. rewrite <- IH by (intros o' Hin; apply Hpre; apply in_or_app; now left).
+      destruct (exists_file (sfs sj) (FBlob x)); [|reflexivity].
+      unfold read_index, apply. cbn [fold_left apply1 files]. now rewrite upd_other by discriminate. }
+    destruct C as [(pre & o & post & Eq & R)|[Ef _]].
+    + cbn zeta in R. destruct R as (_ & _ & _ & R & _).
+      destruct pre as [|p0 pre].
+      * cbn [app] in Eq. unfold os, gc_ops in Eq. injection Eq as <- _. cbn [run fold_left] in R. exact R.
+      * right. cbn [app] in Eq. unfold os, gc_ops in Eq. injection Eq as <- Eq.
+        cbn [run fold_left] in R. fold s1 in R.
+        assert (Hpre : forall o', In o' pre -> In o' (map Delete xs)).
+        { intros o' Hin. rewrite Eq. apply in_or_app. now left. }
+        assert (Hpo : forall o', In o' (pre ++ [o]) -> In o' (map Delete xs)).
+        { intros o' Hin. rewrite Eq. apply in_app_or in Hin as [Hin|[<-|[]]]; apply in_or_app; [now left|right; now left]. }
+        pose proof (RI pre Hpre) as E0. pose proof (RI (pre ++ [o]) Hpo) as E1.
+        unfold run in E1. rewrite fold_left_app in E1. cbn [fold_left] in E1.
+        fold (run H shuffle false false true pre s1) in E1.
+        destruct R as [R|R]; rewrite R; [exact E0|exact E1].
+    + right. rewrite Ef. unfold os, gc_ops. cbn [run fold_left]. fold s1. apply RI. auto.
+Qed.
+
+(* ---------- a completed push survives every later crash (until a Delete of that blob) ---------- *)
+Lemma sfs_reopen fs c : sfs (reopen fs c) = fs.
+Proof. unfold reopen. destruct (read_index fs); reflexivity. Qed.
+
+Lemma blob_kept_by_op s o d :
+  Inv s -> exists_file (sfs s) (FBlob d) = true ->
+  (forall d', o = Delete d' -> d' <> d) ->
+  exists_file (sfs (runop s o)) (FBlob d) = true.
+Proof.
+  intros I Hx Hn. destruct (op_safe s o I) as (_ & _ & E & _). rewrite E.
+  destruct o; cbn; try exact Hx.
+  - destruct (exists_file (sfs s) (FBlob d0)); [exact Hx|].
+    destruct (H c =? d0); [|exact Hx]. destruct (d =? d0); [reflexivity|exact Hx].
+  - destruct (d =? d0) eqn:Ed; [|exact Hx]. apply N.eqb_eq in Ed. subst d0.
+    exfalso. exact (Hn d eq_refl eq_refl).
+Qed.
+
+Lemma stored_step_sound s x d acc :
+  Inv s -> (acc = true -> exists_file (sfs s) (FBlob d) = true) ->
+  stored_step H d acc x = true ->
+  exists_file (sfs (run_hop H shuffle false false true s x)) (FBlob d) = true.
+Proof.
+  intros I Ha Hs. destruct x as [o|o k]; cbn [run_hop].
+  - (* completed *)
+    destruct o as [d' c m|d' r|r|d'| |live]; cbn [stored_step] in Hs;
+      try (apply blob_kept_by_op; [exact I|now apply Ha|intros ? E; discriminate]).
+    + destruct ((d' =? d) && (H c =? d)) eqn:E.
+      * apply andb_true_iff in E as [E1 E2]. apply N.eqb_eq in E1. subst d'.
+        destruct (op_safe s (Push d c m) I) as (_ & _ & Eb & _). rewrite Eb. cbn.
+        destruct (exists_file (sfs s) (FBlob d)) eqn:Ex; [exact Ex|]. rewrite E2. now rewrite N.eqb_refl.
+      * apply blob_kept_by_op; [exact I|now apply Ha|intros ? E'; discriminate].
+    + destruct (d' =? d) eqn:E; [discriminate|]. apply N.eqb_neq in E.
+      apply blob_kept_by_op; [exact I|now apply Ha|]. intros d0 E0. injection E0 as <-. exact E.
+  - (* interrupted: present before and after the operation, hence at the cut *)
+    rewrite sfs_reopen.
+    assert (Hacc : acc = true /\ forall d', o = Delete d' -> d' <> d).
+    { destruct o as [d' c m|d' r|r|d'| |live]; cbn [stored_step] in Hs; try (split; [exact Hs|intros ? E; discriminate]).
+      destruct (d' =? d) eqn:E; [discriminate|]. apply N.eqb_neq in E.
+      split; [exact Hs|]. intros d0 E0. injection E0 as <-. exact E. }
+    destruct Hacc as [Hacc Hn].
+    pose proof (Ha Hacc) as H0.
+    pose proof (blob_kept_by_op s o d I H0 Hn) as H1.
+    destruct (op_safe s o I) as (_ & _ & _ & R). destruct (R k) as (_ & _ & _ & _ & P1 & _).
+    assert (X : has (crash_fs H shuffle false false true s o k) (FBlob d)).
+    { apply P1; now apply exists_file_true. }
+    unfold has in X. unfold exists_file.
+    destruct (files (crash_fs H shuffle false false true s o k) (FBlob d)); [reflexivity|contradiction].
+Qed.
+
+Theorem completed_push_survives (h : list hop) d :
+  stored_since H d h = true ->
+  exists_file (sfs (runc H shuffle false false true h init)) (FBlob d) = true.
+Proof.
+  unfold stored_since, runc.
+  assert (G : forall h s acc, Inv s -> (acc = true -> exists_file (sfs s) (FBlob d) = true) ->
+              fold_left (stored_step H d) h acc = true ->
+              exists_file (sfs (fold_left (run_hop H shuffle false false true) h s)) (FBlob d) = true).
+  { induction h0 as [|x h0 IH]; intros s acc I Ha Hf; cbn [fold_left] in *.
+    - now apply Ha.
+    - apply (IH _ (stored_step H d acc x)); [now apply inv_run_hop| |exact Hf].
+      intro Hs. now apply (stored_step_sound s x d acc). }
+  intro Hf. apply (G h init false inv_init); [discriminate|exact Hf].
+Qed.
+
+(* ---------- ... and so does a completed Tag (until a Tag/Untag of that name or a Delete of the blob) ---------- *)
+Definition on_disk (s : st) (d r : N) : Prop :=
+  exists l, read_index (sfs s) = Some l /\ In (d, Some r) l.
+
+Lemma on_disk_mem s d r : Inv s -> (on_disk s d r <-> In (r, d) (stags s)).
+Proof.
+  intro I. destruct (inv_named s I) as (l & Hl & Hn). unfold on_disk. split.
+  - intros (l' & Hl' & Hin). rewrite Hl in Hl'. injection Hl' as <-. now apply Hn.
+  - intro Hin. exists l. split; [exact Hl|now apply Hn].
+Qed.
+
+Lemma tag_kept_by_op s o d r :
+  In (r, d) (stags s) ->
+  (forall d' r', o = Tag d' r' -> r' <> r) -> (forall r', o = Untag r' -> r' <> r) ->
+  (forall d', o = Delete d' -> d' <> d) ->
+  In (r, d) (stags (runop s o)).
+Proof.
+  intros Hin HT HU HD. unfold run_op. destruct o as [d' c m|d' r'|r'|d'| |live]; cbn [op_mem].
+  - destruct (exists_file (sfs s) (FBlob d')); [exact Hin|].
+    destruct (negb (H c =? d')); [exact Hin|]. destruct m; exact Hin.
+  - destruct (exists_file (sfs s) (FBlob d')); cbn [stags]; [|exact Hin].
+    apply tag_set_iff. right. split; [|exact Hin]. intro E. exact (HT d' r' eq_refl (eq_sym E)).
+  - destruct (tag_get r' (stags s)); cbn [stags]; [|exact Hin].
+    unfold tag_del. apply filter_In. split; [exact Hin|]. cbn.
+    apply negb_true_iff, N.eqb_neq. intro E. exact (HU r' eq_refl (eq_sym E)).
+  - cbn [stags]. apply filter_In. split; [exact Hin|]. cbn.
+    apply negb_true_iff, N.eqb_neq. intro E. exact (HD d' eq_refl (eq_sym E)).
+  - exact Hin.
+  - exact Hin.
+Qed.
+
+Lemma tagged_step_sound s x d r st tg :
+  Inv s -> (st = true -> exists_file (sfs s) (FBlob d) = true) -> (tg = true -> In (r, d) (stags s)) ->
+  snd (tagged_step H d r (st, tg) x) = true ->
+  on_disk (run_hop H shuffle false false true s x) d r.
+Proof.
+  intros I Hst Htg Hs.
+  assert (Ihop : Inv (run_hop H shuffle false false true s x)) by (now apply inv_run_hop).
+  destruct x as [o|o k]; cbn [run_hop] in *.
+  - (* completed: read the memory of the state after *)
+    apply (on_disk_mem _ d r Ihop).
+    destruct o as [d' c m|d' r'|r'|d'| |live]; cbn [tagged_step fst snd] in Hs;
+      try (apply tag_kept_by_op; [now apply Htg|intros; discriminate|intros; discriminate|intros; discriminate]).
+    + destruct (r' =? r) eqn:Er; cbn [snd] in Hs.
+      * apply N.eqb_eq in Er. subst r'. apply andb_true_iff in Hs as [Ed Hs]. apply N.eqb_eq in Ed. subst d'.
+        unfold run_op. cbn [op_mem]. rewrite (Hst Hs). cbn [stags]. apply tag_set_iff. left. now split.
+      * apply N.eqb_neq in Er. apply tag_kept_by_op; [now apply Htg| |intros; discriminate|intros; discriminate].
+        intros d0 r0 E. injection E as _ <-. exact Er.
+    + destruct (r' =? r) eqn:Er; cbn [snd] in Hs; [discriminate|]. apply N.eqb_neq in Er.
+      apply tag_kept_by_op; [now apply Htg|intros; discriminate| |intros; discriminate].
+      intros r0 E. injection E as <-. exact Er.
+    + destruct (d' =? d) eqn:Ed; cbn [snd] in Hs; [discriminate|]. apply N.eqb_neq in Ed.
+      apply tag_kept_by_op; [now apply Htg|intros; discriminate|intros; discriminate|].
+      intros d0 E. injection E as <-. exact Ed.
+  - (* interrupted: the entry is in index.json before and after the operation, and the file
+       found is one of the two *)
+    assert (Hk : tg = true /\ (forall d' r', o = Tag d' r' -> r' <> r) /\ (forall r', o = Untag r' -> r' <> r) /\
+                 (forall d', o = Delete d' -> d' <> d)).
+    { destruct o as [d' c m|d' r'|r'|d'| |live]; cbn [tagged_step fst snd] in Hs;
+        try (split; [exact Hs|repeat split; intros; discriminate]).
+      - destruct (r' =? r) eqn:Er; cbn [snd] in Hs; [discriminate|]. apply N.eqb_neq in Er.
+        split; [exact Hs|]. split; [|split; intros; discriminate]. intros d0 r0 E. injection E as _ <-. exact Er.
+      - destruct (r' =? r) eqn:Er; cbn [snd] in Hs; [discriminate|]. apply N.eqb_neq in Er.
+        split; [exact Hs|]. split; [intros; discriminate|split; [|intros; discriminate]].
+        intros r0 E. injection E as <-. exact Er.
+      - destruct (d' =? d) eqn:Ed; cbn [snd] in Hs; [discriminate|]. apply N.eqb_neq in Ed.
+        split; [exact Hs|]. split; [intros; discriminate|split; [intros; discriminate|]].
+        intros d0 E. injection E as <-. exact Ed. }
+    destruct Hk as (Ht & HT & HU & HD).
+    pose proof (Htg Ht) as Hin0.
+    pose proof (tag_kept_by_op s o d r Hin0 HT HU HD) as Hin1.
+    destruct (op_safe s o I) as (I1 & _ & _ & R). destruct (R k) as (_ & _ & _ & RI & _).
+    unfold on_disk. rewrite sfs_reopen.
+    destruct RI as [RI|RI]; rewrite RI.
+    + now apply (on_disk_mem s d r I).
+    + now apply (on_disk_mem _ d r I1).
+Qed.
+
+Theorem completed_tag_survives (h : list hop) d r :
+  tagged_since H d r h = true ->
+  exists l, read_index (sfs (runc H shuffle false false true h init)) = Some l /\ tag_of l r d.
+Proof.
+  unfold tagged_since, runc.
+  assert (G : forall h s st tg, Inv s ->
+              (st = true -> exists_file (sfs s) (FBlob d) = true) -> (tg = true -> In (r, d) (stags s)) ->
+              snd (fold_left (tagged_step H d r) h (st, tg)) = true ->
+              on_disk (fold_left (run_hop H shuffle false false true) h s) d r).
+  { induction h0 as [|x h0 IH]; intros s st tg I Hst Htg Hf; cbn [fold_left] in *.
+    - apply (on_disk_mem s d r I). now apply Htg.
+    - destruct (tagged_step H d r (st, tg) x) as [st' tg'] eqn:E.
+      assert (Ix : Inv (run_hop H shuffle false false true s x)) by (now apply inv_run_hop).
+      apply (IH _ st' tg' Ix); [| |exact Hf].
+      + intro Hs. apply (stored_step_sound s x d st I Hst).
+        assert (E1 : fst (tagged_step H d r (st, tg) x) = stored_step H d st x).
+        { unfold tagged_step. cbn [fst].
+          destruct x as [[| | | | |]|[| | | | |] ?]; cbn [fst]; try reflexivity;
+            match goal with |- fst (if ?c then _ else _) = _ => destruct c; reflexivity end. }
+        rewrite E in E1. cbn [fst] in E1. now rewrite <- E1.
+      + intro Ht. apply (on_disk_mem _ d r Ix).
+        apply (tagged_step_sound s x d r st tg I Hst Htg). rewrite E. exact Ht. }
+  intro Hf. apply (G h init false false inv_init); [discriminate|discriminate|exact Hf].
+Qed.
+
 End Crash.
 
 (* ---------- the code before the repair: index.json written in place ---------- *)
 Lemma crash_unsafe_inplace (H : list N -> N) :
   exists h o k,
-    let s := run H (fun _ l => l) true false h init in
-    ~ Recoverable H (sfs s) (crash_fs H (fun _ l => l) true false s o k)
-        (sfs (run_op H (fun _ l => l) true false s o)).
+    let s := run H (fun _ l => l) true false true h init in
+    ~ Recoverable H (sfs s) (crash_fs H (fun _ l => l) true false true s o k)
+        (sfs (run_op H (fun _ l => l) true false true s o)).
 Proof.
   exists [], SaveIndex, 1%nat. cbn zeta. intros (_ & _ & (l & Hl & _) & _).
   cbn in Hl. discriminate.
@@ -1439,16 +1755,16 @@ Qed.
 
 (* after the cut between open(O_TRUNC) and write, index.json is empty: a reader cannot parse it *)
 Lemma crash_inplace_index_unreadable (H : list N -> N) :
-  read_index (crash_fs H (fun _ l => l) true false init SaveIndex 1) = None.
+  read_index (crash_fs H (fun _ l => l) true false true init SaveIndex 1) = None.
 Proof. reflexivity. Qed.
 
 (* Store.delete with the two effects swapped (blob unlinked before index.json is rewritten):
    a cut between them leaves an index entry that names a missing blob *)
 Lemma crash_unsafe_unlink_first :
   exists H h o k,
-    let s := run H (fun _ l => l) false true h init in
-    ~ Recoverable H (sfs s) (crash_fs H (fun _ l => l) false true s o k)
-        (sfs (run_op H (fun _ l => l) false true s o)).
+    let s := run H (fun _ l => l) false true true h init in
+    ~ Recoverable H (sfs s) (crash_fs H (fun _ l => l) false true true s o k)
+        (sfs (run_op H (fun _ l => l) false true true s o)).
 Proof.
   exists (fun _ => 2), [Push 2 [9] true], (Delete 2), 1%nat. cbn zeta.
   intros (_ & _ & (l & Hl & He) & _).
@@ -1473,26 +1789,26 @@ Theorem crash_safe_src :
   forall (H : list N -> N) (shuffle : nat -> list entry -> list entry),
     (forall c l e, In e (shuffle c l) <-> In e l) ->
     forall (h : list op) (o : op) (k : nat),
-      let s := run H shuffle src_inplace src_unlink_first h init in
-      Recoverable H (sfs s) (crash_fs H shuffle src_inplace src_unlink_first s o k)
-        (sfs (run_op H shuffle src_inplace src_unlink_first s o)).
+      let s := run H shuffle src_inplace src_unlink_first true h init in
+      Recoverable H (sfs s) (crash_fs H shuffle src_inplace src_unlink_first true s o k)
+        (sfs (run_op H shuffle src_inplace src_unlink_first true s o)).
 Proof. rewrite src_inplace_false, src_unlink_first_false. exact crash_safe. Qed.
 
 Theorem crash_tags_src :
   forall (H : list N -> N) (shuffle : nat -> list entry -> list entry),
     (forall c l e, In e (shuffle c l) <-> In e l) ->
     forall (h : list op) (o : op) (k : nat),
-      let s := run H shuffle src_inplace src_unlink_first h init in
-      let fsk := crash_fs H shuffle src_inplace src_unlink_first s o k in
+      let s := run H shuffle src_inplace src_unlink_first true h init in
+      let fsk := crash_fs H shuffle src_inplace src_unlink_first true s o k in
       same_tags fsk (sfs s) \/
-      same_tags fsk (sfs (run_op H shuffle src_inplace src_unlink_first s o)).
+      same_tags fsk (sfs (run_op H shuffle src_inplace src_unlink_first true s o)).
 Proof. rewrite src_inplace_false, src_unlink_first_false. exact crash_tags_before_or_after. Qed.
 
 Theorem completed_effects_src :
   forall (H : list N -> N) (shuffle : nat -> list entry -> list entry),
     (forall c l e, In e (shuffle c l) <-> In e l) ->
     forall (h : list op),
-      let s := run H shuffle src_inplace src_unlink_first h init in
+      let s := run H shuffle src_inplace src_unlink_first true h init in
       let bs := fst (spec_run H h (fun _ => false) (fun _ => None)) in
       let tg := snd (spec_run H h (fun _ => false) (fun _ => None)) in
       (forall d, exists_file (sfs s) (FBlob d) = bs d) /\
@@ -1503,14 +1819,14 @@ Theorem crash_safe_recovered_src :
   forall (H : list N -> N) (shuffle : nat -> list entry -> list entry),
     (forall c l e, In e (shuffle c l) <-> In e l) ->
     forall (h : list hop) (o : op) (k : nat),
-      let s := runc H shuffle src_inplace src_unlink_first h init in
-      Recoverable H (sfs s) (crash_fs H shuffle src_inplace src_unlink_first s o k)
-        (sfs (run_op H shuffle src_inplace src_unlink_first s o)).
+      let s := runc H shuffle src_inplace src_unlink_first true h init in
+      Recoverable H (sfs s) (crash_fs H shuffle src_inplace src_unlink_first true s o k)
+        (sfs (run_op H shuffle src_inplace src_unlink_first true s o)).
 Proof. rewrite src_inplace_false, src_unlink_first_false. exact crash_safe_recovered. Qed.
 
 Theorem no_in_place_write_src :
   forall (H : list N -> N) (shuffle : nat -> list entry -> list entry) (s : st) (o : op) (m : mstep),
-    In m (op_steps H shuffle src_inplace src_unlink_first s o) ->
+    In m (op_steps H shuffle src_inplace src_unlink_first true s o) ->
     match m with
     | Create p | OpenTrunc p | Write p _ | Chmod p => is_temp p = true
     | _ => True
@@ -1524,13 +1840,13 @@ Theorem crash_safe_composite_src :
   forall (H : list N -> N) (shuffle : nat -> list entry -> list entry),
     (forall c l e, In e (shuffle c l) <-> In e l) ->
     forall (h : list hop) (os : list op) (k : nat),
-      let s := runc H shuffle src_inplace src_unlink_first h init in
-      let fsk := crash_seq H shuffle src_inplace src_unlink_first s os k in
+      let s := runc H shuffle src_inplace src_unlink_first true h init in
+      let fsk := crash_seq H shuffle src_inplace src_unlink_first true s os k in
       (exists pre o post,
          os = pre ++ o :: post /\
-         let sj := run H shuffle src_inplace src_unlink_first pre s in
-         Recoverable H (sfs sj) fsk (sfs (run_op H shuffle src_inplace src_unlink_first sj o))) \/
-      (fsk = sfs (run H shuffle src_inplace src_unlink_first os s) /\
+         let sj := run H shuffle src_inplace src_unlink_first true pre s in
+         Recoverable H (sfs sj) fsk (sfs (run_op H shuffle src_inplace src_unlink_first true sj o))) \/
+      (fsk = sfs (run H shuffle src_inplace src_unlink_first true os s) /\
        layout_ok fsk /\ blob_ok H fsk /\ index_ok fsk).
 Proof. rewrite src_inplace_false, src_unlink_first_false. exact crash_safe_composite. Qed.
 
@@ -1559,9 +1875,9 @@ Theorem crash_shrinking_between_src :
     (forall c l e, In e (shuffle c l) <-> In e l) ->
     forall (h : list hop) (os : list op) (k : nat),
       (forall o, In o os -> match o with Delete _ | Forget _ | SaveIndex => True | _ => False end) ->
-      let s := runc H shuffle src_inplace src_unlink_first h init in
-      let fsk := crash_seq H shuffle src_inplace src_unlink_first s os k in
-      let fs1 := sfs (run H shuffle src_inplace src_unlink_first os s) in
+      let s := runc H shuffle src_inplace src_unlink_first true h init in
+      let fsk := crash_seq H shuffle src_inplace src_unlink_first true s os k in
+      let fs1 := sfs (run H shuffle src_inplace src_unlink_first true os s) in
       (forall d, has (sfs s) (FBlob d) -> has fs1 (FBlob d) -> has fsk (FBlob d)) /\
       (forall d, has fsk (FBlob d) -> has (sfs s) (FBlob d)).
 Proof. rewrite src_inplace_false, src_unlink_first_false. exact crash_shrinking_between. Qed.
@@ -1570,10 +1886,61 @@ Theorem cascade_tags_src :
   forall (H : list N -> N) (shuffle : nat -> list entry -> list entry),
     (forall c l e, In e (shuffle c l) <-> In e l) ->
     forall (h : list hop) (d : N) (xs : list N) (k : nat),
-      let s := runc H shuffle src_inplace src_unlink_first h init in
+      let s := runc H shuffle src_inplace src_unlink_first true h init in
       (forall l, read_index (sfs s) = Some l -> forall x r, In x xs -> ~ tag_of l r x) ->
       let os := Delete d :: map Delete xs in
-      let fsk := crash_seq H shuffle src_inplace src_unlink_first s os k in
-      same_tags fsk (sfs s) \/ same_tags fsk (sfs (run H shuffle src_inplace src_unlink_first os s)).
+      let fsk := crash_seq H shuffle src_inplace src_unlink_first true s os k in
+      same_tags fsk (sfs s) \/ same_tags fsk (sfs (run H shuffle src_inplace src_unlink_first true os s)).
 Proof. rewrite src_inplace_false, src_unlink_first_false. exact cascade_tags. Qed.
+
+(* AutoSaveIndex = false: Delete unlinks the blob although the index.json saved earlier still
+   names it -- already the completed Delete (and every cut after its unlink) leaves an
+   index entry without a blob, until the caller's next SaveIndex *)
+Lemma crash_unsafe_autosave_off :
+  exists H h o k,
+    let s := run H (fun _ l => l) false false false h init in
+    ~ Recoverable H (sfs s) (crash_fs H (fun _ l => l) false false false s o k)
+        (sfs (run_op H (fun _ l => l) false false false s o)).
+Proof.
+  exists (fun _ => 2), [Push 2 [9] true; Tag 2 5; SaveIndex], (Delete 2), 1%nat. cbn zeta.
+  intros (_ & _ & (l & Hl & He) & _).
+  vm_compute in Hl. injection Hl as <-.
+  specialize (He (2, Some 5) (or_introl eq_refl)). apply He. vm_compute. reflexivity.
+Qed.
+
+Theorem gc_crash_safe_src :
+  forall (H : list N -> N) (shuffle : nat -> list entry -> list entry),
+    (forall c l e, In e (shuffle c l) <-> In e l) ->
+    forall (h : list hop) (live xs : list N) (k : nat),
+      let s := runc H shuffle src_inplace src_unlink_first true h init in
+      (forall l, read_index (sfs s) = Some l ->
+         forall x, In x xs -> ~ In x live /\ forall r, ~ tag_of l r x) ->
+      let os := gc_ops live xs in
+      let fsk := crash_seq H shuffle src_inplace src_unlink_first true s os k in
+      (forall pre x post, map Delete xs = pre ++ Delete x :: post ->
+         let sj := run H shuffle src_inplace src_unlink_first true pre
+                     (run_op H shuffle src_inplace src_unlink_first true s (Forget live)) in
+         op_steps H shuffle src_inplace src_unlink_first true sj (Delete x)
+           = if exists_file (sfs sj) (FBlob x) then [Unlink (FBlob x)] else []) /\
+      same_tags fsk (sfs s) /\
+      (read_index fsk = read_index (sfs s) \/
+       read_index fsk = read_index (sfs (run_op H shuffle src_inplace src_unlink_first true s (Forget live)))).
+Proof. rewrite src_inplace_false, src_unlink_first_false. exact gc_crash_safe. Qed.
+
+Theorem completed_push_survives_src :
+  forall (H : list N -> N) (shuffle : nat -> list entry -> list entry),
+    (forall c l e, In e (shuffle c l) <-> In e l) ->
+    forall (h : list hop) (d : N),
+      stored_since H d h = true ->
+      exists_file (sfs (runc H shuffle src_inplace src_unlink_first true h init)) (FBlob d) = true.
+Proof. rewrite src_inplace_false, src_unlink_first_false. exact completed_push_survives. Qed.
+
+Theorem completed_tag_survives_src :
+  forall (H : list N -> N) (shuffle : nat -> list entry -> list entry),
+    (forall c l e, In e (shuffle c l) <-> In e l) ->
+    forall (h : list hop) (d r : N),
+      tagged_since H d r h = true ->
+      exists l, read_index (sfs (runc H shuffle src_inplace src_unlink_first true h init)) = Some l /\
+                tag_of l r d.
+Proof. rewrite src_inplace_false, src_unlink_first_false. exact completed_tag_survives. Qed.
 
